@@ -22,7 +22,28 @@ Inductive ekind :=
 | ECharEnd (c : N)     (* Expected 'c', found end of dependency specification *)
 | ECharOther (c : N)   (* Expected `c`, found `x` *)
 | EUnexpectedAndOr     (* Unexpected character 'x', expected 'and', 'or' or end of input *)
-| EUnexpectedEnd.      (* Unexpected character 'x', expected end of input *)
+| EUnexpectedEnd       (* Unexpected character 'x', expected end of input *)
+(* requirement level (src/lib.rs, src/unnamed.rs) *)
+| EEmpty               (* Empty field is not allowed for PEP508 *)
+| ENameStart           (* Expected package name starting with an alphanumeric character, found `x` *)
+| ENameEnd             (* Package name must end with an alphanumeric character, not 'x' *)
+| EUnsupportedPath     (* UnsupportedRequirement: ... `package_name @ /path/to/file` *)
+| EUnsupportedUrl      (* UnsupportedRequirement: ... `package_name @ https://...` *)
+| EExtrasComma         (* Expected either alphanumerical character ... or `]` ..., found `,` *)
+| EExtrasSep           (* Expected either `,` (separating extras) or `]` (ending the extras section), found `x` *)
+| EExtrasEof           (* Missing closing bracket (expected ']', found end of dependency specification) *)
+| EExtrasStart         (* Expected an alphanumeric character starting the extra name, found `x` *)
+| EExtrasChar          (* Invalid character in extras name, expected ..., found `x` *)
+| EExtrasEnd           (* Extra name must end with an alphanumeric character, not 'x' *)
+| EExpectedUrl         (* Expected URL *)
+| EUrl                 (* UrlError: the URL type's own error *)
+| ESpec                (* the PEP 440 specifier parser's error *)
+| EParenMissing        (* Missing closing parenthesis (expected ')', found end of dependency specification) *)
+| EExpectedOneOf       (* Expected one of `@`, `(`, `<`, `=`, `>`, `~`, `!`, `;`, found `x` *)
+| EAmbiguous (c : N)   (* Missing space before 'c', the end of the URL is ambiguous *)
+| EEndOrSemi           (* Expected end of input or `;`, found `x` *)
+| EEnd                 (* Expected end of input, found `x` *)
+| EPanic.              (* an `expect` / `unwrap` site: never reached (theorem no_panic) *)
 
 Record perr := { e_kind : ekind; e_start : N; e_len : N }.
 Inductive pres (A : Type) := POk (a : A) | PErr (e : perr).
@@ -289,17 +310,24 @@ Fixpoint parse_or (fuel : nat) (c : cursor) : pres (option mdd * list wkind * cu
       end
   end.
 
-(** [parse_markers]: the whole input must be consumed *)
-Definition parse_markers (s : text) : pres (mdd * list wkind) :=
-  match parse_or (S (length s)) (c_new s) with
+(** [parse_markers_cursor]: the rest of the input must be consumed *)
+Definition parse_markers_cursor (c : cursor) : pres (option mdd * list wkind * cursor) :=
+  match parse_or (S (length (c_rest c))) c with
   | PErr e => PErr e
   | POk (m, w, c1) =>
       let c2 := c_eat_whitespace ws c1 in
       match c_next c2 with
       | Some (pos, _, c3) =>
           PErr {| e_kind := EUnexpectedAndOr; e_start := pos; e_len := prefix_len (c_remaining c3) (c_rest c2) |}
-      | None => POk (match m with Some t => t | None => Leaf true end, w)
+      | None => POk (m, w, c2)
       end
+  end.
+
+(** [parse_markers]: a tree consisting entirely of dropped expressions is TRUE *)
+Definition parse_markers (s : text) : pres (mdd * list wkind) :=
+  match parse_markers_cursor (c_new s) with
+  | PErr e => PErr e
+  | POk (m, w, _) => POk (match m with Some t => t | None => Leaf true end, w)
   end.
 
 (** [MarkerExpression::parse_reporter] *)
